@@ -230,19 +230,21 @@ def stepCaller (s : State) (t : Nat) (c : Nat) (e : Ev) : Option State :=
     if s.freeFor c then some ((s.acquire c).setC c (nextReq { k with held := k.held + 1 })) else none
   | .check, .chk _ v =>
     if v = s.isConn then some (s.setC c { k with pc := if v then .acqI else .chkNow }) else none
-  | .chkNow, .now _ t' =>
-    if s.lastAttempt + s.cfg.interval ≤ t' then some ({ s with lastAttempt := t' }.setC c { k with pc := .rcheck })
-    else some (s.setC c (failTo k))
+  | .chkNow, .now _ t' =>     -- the clock read of check_connection (the event is stamped with the value read)
+    if t' = t then
+      (if s.lastAttempt + s.cfg.interval ≤ t' then some ({ s with lastAttempt := t' }.setC c { k with pc := .rcheck })
+       else some (s.setC c (failTo k)))
+    else none
   | .chkNow, .acq _ => doAcqI s c k       -- connected by another thread while waiting for accessLock: check passes
   | .rcheck, .now _ t' =>     -- read_is_connected: not connected; the attempt is recorded
-    if s.isConn = false then some ({ s with lastAttempt := t' }.setC c { k with pc := .connecting }) else none
+    if s.isConn = false ∧ t' = t then some ({ s with lastAttempt := t' }.setC c { k with pc := .connecting }) else none
   | .rcheck, .isconn _ v =>               -- read_is_connected returned True; its wrapper announces that, too late
     if v = true ∧ s.isConn = false then some ({ s with isConn := true }.setC c k) else none
   | .rcheck, .acq _ => doAcqI s c k       -- read_is_connected returned True (on behalf of a communicate)
   | .rcheck, .ret _ res =>                -- read_is_connected returned True (doPoll)
     if k.kind = .poll ∧ res = result k then some (s.setC c { k with pc := .idle }) else none
-  | .connecting, .connect _ ok od =>
-    if od = decide (k.kind ≠ .poll) then
+  | .connecting, .connect _ ok od =>       -- right after the attempt was recorded
+    if od = decide (k.kind ≠ .poll) ∧ t ≤ s.lastAttempt + s.cfg.slack then
       if ok then
         some ({ s with conn := some s.nconn, nconn := s.nconn + 1, rxbuf := [], chan := [], eof := false }.setC c
           { k with pc := .visT })
